@@ -12,7 +12,7 @@ FAMILIES = {
     "C04": (["F8", "F8m", "F8p", "F5", "F6"], ["F8", "F8m", "F8p", "F1", "F1b", "F5", "F6", "F7", "F9", "F14", "FC2", "R"]),
     "C09": (["F1", "F5", "F4", "F8", "F20"], ["F1", "F2", "F4", "F5", "F8", "F8m", "F8p", "F9", "F14", "F20", "R"]),
     "C13": (["F1", "F3", "F6", "F7", "F13"], ALLF + ["R"]),
-    "C16": (["F10", "F11", "F3", "F4", "F4b"], ["F10", "F11", "F1", "F2", "F3", "F4", "F4b", "F8"]),
+    "C16": (["F10", "F11", "F3", "F4", "F4b"], ["F10", "F11", "F3", "F4", "F4b", "F8", "F8m", "F14"]),
     "C12": (["FC1", "FC2", "F6", "F8m"], ["FC1", "FC2", "F6", "F8m", "F1", "F13"]),
 }
 
